@@ -180,7 +180,8 @@ Definition method_table_ok (tbl : list (N * list (str * Z * bool))) (recv : valu
 
 Definition modelled_list_methods : list name :=
   [n_size; n_first; n_last; n_map; n_accept; n_reduce; n_mapReduce; n_sum; n_top; n_skip; n_append;
-   n_reverse; n_indexWhere; n_present].
+   n_reverse; n_indexWhere; n_present; n_single; n_min; n_max; n_mean; n_minMax; n_number; n_compact;
+   n_combine; n_combine3; n_combineN; n_iir; n_iirCombine; n_cross; n_merge].
 Definition modelled_map_methods : list name := [n_size; n_get; n_put; n_isAvail].
 
 Definition c01_tables_ok : bool :=
